@@ -92,7 +92,7 @@ class DState:
         # source map: the entry of this source address (absent or an identity with any NAME / manufacturer)
         self.has_ident = Sym(z3.Bool('source_known'), 'bool')
         self.mfr_none = Sym(z3.Bool('claimed_manufacturer_is_None'), 'bool')
-        self.old_name = ex.fresh('claimed_NAME', lo=0)
+        self.old_name = ex.fresh('claimed_NAME', lo=0, hi=(1 << 128) - 1)      # a stored NAME is int.from_bytes of at most 16 data bytes
         self.mfr = SStr([Atom('claimed_manufacturer')])
         self.ident = Obj(r.cls('message', 'IsoName'), {'name': self.old_name,
                                                        'manufacturer_code': GV.make([(self.mfr_none.t, None), (z3.Not(self.mfr_none.t), self.mfr)])})
@@ -749,3 +749,62 @@ def replay_prefs(maps, rec):
                 return {'confirmed': True, 'inputs': {'preferred_units': entries}, 'observed': {k.name: v for k, v in d.preferred_units.items()},
                         'expected': f'{q} -> {u.lower()!r} stored (a recognised preference is honoured whatever else the map holds)', 'how': 'NMEA2000Decoder(preferred_units=...) on the working tree'}
     return {'confirmed': False}
+
+
+
+class InitDumpTask(Task):
+    """NMEA2000Decoder.__init__ with dumping enabled: the dump file is opened once, for appending text, in a way that stores every
+    character written (no lossy error handler, no encoding that cannot represent the JSON text)."""
+    def __init__(self, prop='C15'):
+        self.prop = prop
+        self.name = f'{prop}:__init__[dump_to_file]'
+
+    def run(self, tier):
+        out = {'results': [], 'functions': [], 'notes': [], 'bounded': []}
+        r = repo()
+        info = r.func(DEC + '__init__')
+        out['functions'].append(info.describe())
+        dec = Obj(r.cls('decoder', 'NMEA2000Decoder'), {})
+        holder = {}
+
+        def run(ex):
+            holder['ex'] = ex
+            return ex._run_body(info, [], {'dump_to_file': 'dumps/out.jsonl', 'dump_pgns': []}, dec)
+        try:
+            res = explore(r, run, contracts={}, inline={'nmea2000.decoder.NMEA2000Decoder.split_pgn_list', 'decoder.*'})
+        except V.Unsupported as u:
+            out['error'] = f'__init__: outside the modelled subset: {u}'
+            return out
+        bad = []
+        for p in res:
+            if p.kind == 'raise':
+                bad.append(f'raises {p.exc_name()}')
+                continue
+            calls = p.ex.ghost.get('open_calls', [])
+            if len(calls) != 1:
+                bad.append(f'{len(calls)} open() calls')
+                continue
+            a, kw = calls[0]
+            mode = a[1] if len(a) > 1 else kw.get('mode', 'r')
+            enc = (a[3] if len(a) > 3 else kw.get('encoding'))
+            errs = (a[4] if len(a) > 4 else kw.get('errors'))
+            if a[:1] != ['dumps/out.jsonl']:
+                bad.append(f'opens {a[:1]!r}')
+            if mode not in ('a', 'at', 'w', 'wt', 'a+', 'w+'):
+                bad.append(f'mode {mode!r}')
+            if enc is not None and str(enc).lower().replace('_', '-') not in ('utf-8', 'utf8', 'utf-8-sig', 'utf-16', 'utf-32'):
+                bad.append(f'encoding {enc!r} cannot store every character of the JSON text')
+            if errs not in (None, 'strict'):
+                bad.append(f'errors={errs!r} rewrites characters instead of storing them')
+            if p.ex.ghost.get('open_calls') and not isinstance(dec.attrs.get('dump_TextIOWrapper'), Opaque):
+                bad.append('the opened file is not kept as dump_TextIOWrapper')
+        ob = Obligation(f'{self.prop}/{DEC}__init__/dump-file-opened-once-for-faithful-text-append', [], z3.BoolVal(not bad), kind='ensures', func=info.fullname, meta={'note': '; '.join(bad)[:300]})
+        rs = discharge(ob, budget(tier))
+        dct = result_dict(rs, with_size=False)
+        dct['function'] = info.fullname
+        if rs.status == 'refuted':
+            dct['reason'] = ob.meta['note']
+            from contracts.decoder_scenarios import replay_for
+            dct['replay'] = replay_for(self.prop, 'dump', {})
+        out['results'].append(dct)
+        return out
